@@ -55,8 +55,14 @@ def random_script(rng: random.Random, case: dict, kinds=None,
             if 'reload' in kinds and rng.random() < 0.2:
                 # a reload requested while the triggered task is on its way
                 # to job submission
-                script.append({'at': at + rng.choice([0, 0, 1]),
-                               'cmd': 'reload_workflow', 'args': {}})
+                # (also queued ahead of the trigger: the trigger is then
+                # executed from inside the reload's wait loop)
+                rl = {'at': at + rng.choice([0, 0, 1]),
+                      'cmd': 'reload_workflow', 'args': {}}
+                if rl['at'] == at and rng.random() < 0.5:
+                    script.insert(len(script) - 1, rl)
+                else:
+                    script.append(rl)
         elif k == 'set':
             args = {'tasks': some_ids(rng, gt, globs=False),
                     'flow': rng.choice([['all'], ['all'], ['new'], ['1']])}
